@@ -52,6 +52,9 @@ def apply_patch(wt, seed_dir):
     return "re-based"
 
 
+VSEED = "0"
+
+
 def worker(idx, seeds, results):
     vdir = Path(f"/work/sr-{os.getpid()}-{idx}")
     sh(f"git -C {V} worktree remove --force {vdir}")
@@ -72,7 +75,7 @@ def worker(idx, seeds, results):
                 st = apply_patch(wt, sd)
                 res = {"property": prop, "patch": st}
                 if st != "DOES NOT APPLY":
-                    rc, out = sh(f"./check {prop} --tier quick", cwd=vdir, env=dict(os.environ, HAP_REPO=wt, VERIF_SEED="0"))
+                    rc, out = sh(f"./check {prop} --tier quick", cwd=vdir, env=dict(os.environ, HAP_REPO=wt, VERIF_SEED=VSEED))
                     lines = [l for l in out.splitlines() if l.startswith(("VIOLATION", "KNOWN-FINDING", "  C", "[C"))]
                     res.update(exit=rc, caught=rc == 1, with_replay=any(l.startswith("VIOLATION") and "no-failing-input-found" not in l for l in lines),
                                lines=[l[:240] for l in lines[:5]])
@@ -89,8 +92,11 @@ def main():
     ap = argparse.ArgumentParser()
     ap.add_argument("--jobs", type=int, default=5)
     ap.add_argument("--only")
+    ap.add_argument("--seed", default="0", help="VERIF_SEED for the checks (default 0)")
     ap.add_argument("--out", default=str(V / "seeded" / "REGRESSION.json"))
     a = ap.parse_args()
+    global VSEED
+    VSEED = a.seed
     rc, dirty = sh("git status --porcelain -- harness lean extract tools check", cwd=V)
     if dirty.strip():
         print("warning: uncommitted changes under harness/lean/extract are NOT in the scratch worktrees:\n" + dirty)
